@@ -105,9 +105,19 @@ Definition drop_node (s : state) (b : N) : state :=
 Definition dependents (s : state) (b : N) : list key :=
   map snd (filter (fun p => fst p =? b) (rdeps s)).
 
+(* Go ranges over revDeps[id] and edges[id] (maps) in an order that is unspecified and changes
+   from call to call.  A schedule fixes the order in which RemoveNode visits its two snapshots
+   (it may depend on the current state); [sched_id] is the order of the association lists.
+   Every theorem is proved for all schedules that only permute/duplicate ([sched_ok] in
+   GraphProofs.v); the correspondence check runs [sched_id] and compares order-free. *)
+Record sched := Sc {
+  sc_deps : state -> list key -> list key;
+  sc_out : state -> list edesc -> list edesc }.
+Definition sched_id : sched := Sc (fun _ l => l) (fun _ l => l).
+
 (* RemoveNode.  Every recursive call is preceded by a RemoveEdge(from, key, nil) that
    shrinks revDeps, so fuel = 1 + |revDeps| is enough (GraphProofs.remove_node_post). *)
-Fixpoint remove_node (fuel : nat) (s : state) (k : key) : state :=
+Fixpoint remove_node (sc : sched) (fuel : nat) (s : state) (k : key) : state :=
   match fuel with
   | O => s
   | S fuel' =>
@@ -115,10 +125,10 @@ Fixpoint remove_node (fuel : nat) (s : state) (k : key) : state :=
       if negb (has_node s b) then s else
       let s1 := fold_left (fun st d =>
                     let st1 := remove_edge st d k None in
-                    if orphaned st1 (k_base d) then remove_node fuel' st1 d else st1)
-                  (dependents s b) s in
+                    if orphaned st1 (k_base d) then remove_node sc fuel' st1 d else st1)
+                  (sc_deps sc s (dependents s b)) s in
       let s2 := fold_left (fun st e => remove_edge st k (ed_to e) (Some (ed_kind e)))
-                  (filter (fun e => fb e =? b) (edges s1)) s1 in
+                  (sc_out sc s1 (filter (fun e => fb e =? b) (edges s1))) s1 in
       drop_node s2 b
   end.
 
@@ -128,11 +138,11 @@ Definition opt_ver_eqb (o : option N) (v : N) : bool :=
   match o with Some x => x =? v | None => false end.
 
 (* createAndAddSymNode with the idempotency guard; returns the id of the node in the graph *)
-Definition add_node (s : state) (k : key) (kind : N) : state * key :=
+Definition add_node (sc : sched) (s : state) (k : key) (kind : N) : state * key :=
   match get_node s (k_base k) with
   | Some ex =>
       if opt_ver_eqb (n_ver ex) (k_ver k) then (s, n_id ex)
-      else (set_node (remove_node (rn_fuel s) s (n_id ex)) (Nd k kind (Some (k_ver k))), k)
+      else (set_node (remove_node sc (rn_fuel s) s (n_id ex)) (Nd k kind (Some (k_ver k))), k)
   | None => (set_node s (Nd k kind (Some (k_ver k))), k)
   end.
 
@@ -150,39 +160,39 @@ Inductive op :=
 | RemoveEdge (f t : key) (kind : option N)
 | RemoveNode (k : key).
 
-Definition enum_value (id prim : key) (st : state) (v : key) : state :=
-  let (st1, vid) := add_node st v KConst in
+Definition enum_value (sc : sched) (id prim : key) (st : state) (v : key) : state :=
+  let (st1, vid) := add_node sc st v KConst in
   add_edge (add_edge st1 id vid EVal) vid prim ERef.
 
-Definition step (s : state) (o : op) : state :=
+Definition step (sc : sched) (s : state) (o : op) : state :=
   match o with
   | AddBuiltin k kind => add_builtin s k kind
-  | AddNode kind k => fst (add_node s k kind)
+  | AddNode kind k => fst (add_node sc s k kind)
   | AddStruct k fields =>
-      let (s1, id) := add_node s k KStruct in
+      let (s1, id) := add_node sc s k KStruct in
       fold_left (fun st f => add_edge st id f EFld) fields s1
   | AddField k ty bk =>
-      let (s1, id) := add_node s k KField in
+      let (s1, id) := add_node sc s k KField in
       match bk with
       | Some kind => add_edge (add_builtin s1 ty kind) id ty ETy
       | None => if has_node s1 (k_base ty) then add_edge s1 id ty ETy else s1
       end
   | AddEnum k prim vals =>
-      let (s1, id) := add_node s k KEnum in
-      fold_left (enum_value id prim) vals (add_builtin s1 prim KBuiltin)
+      let (s1, id) := add_node sc s k KEnum in
+      fold_left (enum_value sc id prim) vals (add_builtin s1 prim KBuiltin)
   | AddEdge f t kind => add_edge s f t kind
   | RemoveEdge f t ko => remove_edge s f t ko
-  | RemoveNode k => remove_node (rn_fuel s) s k
+  | RemoveNode k => remove_node sc (rn_fuel s) s k
   end.
 
 (* 0 = no error, 1 = the op returned an error (AddField: declared type absent) *)
-Definition step_err (s : state) (o : op) : N :=
+Definition step_err (sc : sched) (s : state) (o : op) : N :=
   match o with
-  | AddField k ty None => if has_node (fst (add_node s k KField)) (k_base ty) then 0 else 1
+  | AddField k ty None => if has_node (fst (add_node sc s k KField)) (k_base ty) then 0 else 1
   | _ => 0
   end.
 
-Definition run (h : list op) : state := fold_left step h empty.
+Definition run (sc : sched) (h : list op) : state := fold_left (step sc) h empty.
 
 (* ------------------------------------------------------------------ queries *)
 
@@ -235,12 +245,13 @@ Definition q_find_by_kind (s : state) (kd : N) : list N :=
 
 (* ------------------------------------------------------------------ observations *)
 
-Definition ver_n (o : option N) : N := match o with Some v => v | None => 0 end.
+(* the Version field as a number: 0 = nil, v + 1 = file version v *)
+Definition ver_n (o : option N) : N := match o with Some v => v + 1 | None => 0 end.
 
 Record obs := Ob {
   o_err : N;
   o_sane : bool;                         (* harness-side consistency flags; no panic *)
-  o_nodes : list (N * N * N * N);        (* base, version of Id, kind, Version (0 = nil) *)
+  o_nodes : list (N * N * N * N);        (* base, version of Id, kind, Version (0 = nil, v+1) *)
   o_edges : list (N * list edesc);       (* GetEdges per base (rows with a non-empty answer) *)
   o_ch : list (N * list N);              (* per existing base *)
   o_pa : list (N * list N);
@@ -271,10 +282,10 @@ Definition observe (U KS : list N) (err : N) (s : state) : obs :=
      (map (fun p => (fst p, k_base (snd p), k_ver (snd p))) (rdeps s)).
 
 (* the observations after each op of a history *)
-Fixpoint observe_run (U KS : list N) (s : state) (h : list op) : list obs :=
+Fixpoint observe_run (sc : sched) (U KS : list N) (s : state) (h : list op) : list obs :=
   match h with
   | [] => []
-  | o :: h' => observe U KS (step_err s o) (step s o) :: observe_run U KS (step s o) h'
+  | o :: h' => observe U KS (step_err sc s o) (step sc s o) :: observe_run sc U KS (step sc s o) h'
   end.
 
 (* --- correspondence: model observation = implementation observation (multisets) *)
@@ -317,9 +328,9 @@ Fixpoint all2 {A B} (f : A -> B -> bool) (a : list A) (b : list B) : bool :=
 
 (* (queries agree, dumps agree) for a whole history *)
 Definition agrees (U KS : list N) (h : list op) (impl : list obs) : bool :=
-  all2 (obs_queries_agree U KS) (observe_run U KS empty h) impl.
+  all2 (obs_queries_agree U KS) (observe_run sched_id U KS empty h) impl.
 Definition agrees_dump (U KS : list N) (h : list op) (impl : list obs) : bool :=
-  all2 obs_dump_agree (observe_run U KS empty h) impl.
+  all2 obs_dump_agree (observe_run sched_id U KS empty h) impl.
 
 (* ------------------------------------------------------------------ abstract spec:
    a plain set of nodes and a set of (from, kind, to) edges *)
@@ -459,7 +470,7 @@ Definition matches_spec (U KS : list N) (sp : spec) (o : obs) : bool :=
 Definition node_listed (b : N) (o : obs) : bool :=
   existsb (fun x => let '(b', _, _, _) := x in b' =? b) (o_nodes o).
 Definition node_listed_ver (b v : N) (o : obs) : bool :=
-  existsb (fun x => let '(b', iv, _, v') := x in (b' =? b) && (iv =? v) && (v' =? v)) (o_nodes o).
+  existsb (fun x => let '(b', _, _, v') := x in (b' =? b) && (v' =? v + 1)) (o_nodes o).
 Definition edge_listed (f kind t : N) (o : obs) : bool :=
   existsb (fun r => existsb (fun e => sedge_eqb (proj_edge e) (Se f kind t)) (snd r)) (o_edges o).
 Definition touches_listed (b : N) (o : obs) : bool :=
@@ -521,3 +532,19 @@ Fixpoint prop_from (U KS : list N) (sp : spec) (prev : obs) (h : list op) (os : 
    made after each op *)
 Definition prop_C17 (U KS : list N) (h : list op) (os : list obs) : bool :=
   prop_from U KS sp_empty obs_empty h os.
+
+(* diagnosis for replay files: the first step at which the oracle fails, the four clause
+   verdicts [o_sane; out_in_ok; matches_spec; direct_ok] and the plain model's state there *)
+Fixpoint diag_from (U KS : list N) (sp : spec) (prev : obs) (h : list op) (os : list obs)
+         (i : nat) : option (nat * list bool * spec) :=
+  match h, os with
+  | [], [] => None
+  | o :: h', cur :: os' =>
+      let sp' := spec_step sp o in
+      let fl := [o_sane cur; out_in_ok cur; matches_spec U KS sp' cur; direct_ok U KS prev o cur] in
+      if forallb (fun b : bool => b) fl then diag_from U KS sp' cur h' os' (S i)
+      else Some (i, fl, sp')
+  | _, _ => Some (i, [], sp)
+  end.
+Definition diag_C17 (U KS : list N) (h : list op) (os : list obs) :=
+  diag_from U KS sp_empty obs_empty h os O.
